@@ -143,8 +143,10 @@ def shape_signature(e):
 
 # ---------------------------------------------------------------- building real queries
 class Env:
-    def __init__(self, domains, as_generators=False, share_attrs=False):
+    def __init__(self, domains, as_generators=False, share_attrs=False, share_conds=False):
         self.domains = domains
+        self.share_conds = share_conds      # `p = pred(x.a, y.b)` written once and used in several positions of the condition
+        self.cond_cache = {}
         self.share_attrs = share_attrs      # `a = x.a` written once and used in several conditions (one node, several positions)
         self.attr_cache = {}
         self.vars = {}
@@ -171,6 +173,14 @@ class Env:
 
     def build(self, e):
         k = e[0]
+        if self.share_conds and k in ("cmp", "contains", "pred"):
+            if e not in self.cond_cache:
+                self.share_conds = False
+                try:
+                    self.cond_cache[e] = self.build(e)
+                finally:
+                    self.share_conds = True
+            return self.cond_cache[e]
         if k == "cmp":
             l, r = self.operand(e[2]), self.operand(e[3])
             return OPS[e[1]](l, r)
